@@ -157,6 +157,27 @@ class Builder:
         dec = os.path.join(self.repo, "src", "decoder.h")
         return self.add(Target(out, [sys.executable, tool, dec, out], [tool, dec]))
 
+    def optable_ref_obj(self, variant):
+        """optable.cpp compiled against the *frozen reference's* decode table (/verif/ref): harnesses whose model is keyed by the
+        operation a word names must not learn that operation from the table under test."""
+        ref = os.path.join(VERIF, "ref")
+        recdir = os.path.join(self.dir, "refrec")
+        os.makedirs(recdir, exist_ok=True)
+        rec = os.path.join(recdir, "gen_recorder.h")
+        tool = os.path.join(VERIF, "tools", "gen_recorder.py")
+        dec = os.path.join(ref, "src", "decoder.h")
+        if rec not in self.targets:
+            self.add(Target(rec, [sys.executable, tool, dec, rec], [tool, dec]))
+        out = os.path.join(self.dir, f"{variant}_h_optable_ref.o")
+        if out in self.targets:
+            return self.targets[out]
+        src = os.path.join(VERIF, "harness", "common", "optable.cpp")
+        cmd = [CXX] + COMMON + VARIANTS[variant][0] + ["-I" + recdir] + repo_inc(ref) + \
+            ["-I" + os.path.join(VERIF, "harness", "common"), "-I" + os.path.join(VERIF, "harness", "models"),
+             "-I" + os.path.join(VERIF, "harness")] + ["-c", src, "-o", out]
+        ref_hdrs = tree_files(os.path.join(ref, "src"), {".h"}) + tree_files(os.path.join(ref, "include"), {".h"})
+        return self.add(Target(out, cmd, [src] + self.common_hdrs + ref_hdrs, deps=[self.targets[rec]]))
+
     def exe(self, name, objs, variant, libs=()):
         out = os.path.join(self.dir, name)
         if out in self.targets:
